@@ -1,7 +1,7 @@
 (* C04 — Links and monitors: exactly one notification when the target goes away.
    Property theorems only; proofs live in Rel/. *)
 From Coq Require Import Permutation.
-From Ergo Require Import Common.Base Rel.Amap Rel.Model Rel.TMProofs Rel.RegProofs Rel.AgreeProofs Rel.RaceProofs Rel.Cases.
+From Ergo Require Import Common.Base Rel.Amap Rel.Model Rel.TMProofs Rel.RegProofs Rel.AgreeProofs Rel.RaceProofs Rel.Cases Rel.RaceGen Rel.RaceGenProofs.
 Local Open Scope N_scope.
 
 (* Every method of the concrete target manager (relations map + per-target index) refines the
@@ -130,6 +130,86 @@ Theorem C04_race : forall k r s p sched,
   end.
 Proof. exact race_link_vs_terminate. Qed.
 Print Assumptions C04_race.
+
+(* The same for EVERY way a local target goes away: x ranges over unregisterProcess(p, r),
+   node.UnregisterName(n) (also process.UnregisterName), process.DeleteAlias(a) and
+   unregisterEvent(e) (process.UnregisterEvent), each transcribed as its atomic steps in program
+   order - table delete, then drain (C04_remover_programs).  Every schedule of the request's steps
+   against the remover's steps ends in: error, no relation, nothing delivered; or nil and exactly one
+   notification; or nil, relation kept, target still there. *)
+Theorem C04_race_any_remover : forall k x s sched,
+  idx_ok (s_tm s) -> live (kc k) s = true -> (forall p r, x = RmTerminate p r -> kc k <> p) ->
+  target_node (kt k) = me -> has k s = false ->
+  let r := remover_reason x in
+  let n0 := nn k r s in
+  let c := run sched (remover_cfg s k x) in
+  finished c = true ->
+  match l_result (c_link c) with
+  | RErr _ => has k (c_st c) = false /\ nn k r (c_st c) = n0
+  | ROk => (has k (c_st c) = false /\ nn k r (c_st c) = S n0)
+           \/ (has k (c_st c) = true /\ nn k r (c_st c) = n0 /\ exists_target (kt k) (c_st c) = true)
+  | _ => False
+  end.
+Proof. exact race_link_vs_remover. Qed.
+Print Assumptions C04_race_any_remover.
+
+(* When the remover does take the requested target away (read from the tables: the pid of the
+   terminating process, a name / alias / event it owns, the name / alias / event being
+   unregistered), the third case is impossible: at the end of every schedule the target is gone,
+   and the request has failed leaving no relation and no notification, or succeeded with exactly
+   one notification delivered. *)
+Theorem C04_race_exactly_one : forall k x s sched,
+  idx_ok (s_tm s) -> live (kc k) s = true -> (forall p r, x = RmTerminate p r -> kc k <> p) ->
+  target_node (kt k) = me -> has k s = false ->
+  removes x (kt k) s = true ->
+  let r := remover_reason x in
+  let n0 := nn k r s in
+  let c := run sched (remover_cfg s k x) in
+  finished c = true ->
+  exists_target (kt k) (c_st c) = false /\
+  match l_result (c_link c) with
+  | RErr _ => has k (c_st c) = false /\ nn k r (c_st c) = n0
+  | ROk => has k (c_st c) = false /\ nn k r (c_st c) = S n0
+  | _ => False
+  end.
+Proof. exact race_exactly_one. Qed.
+Print Assumptions C04_race_exactly_one.
+
+(* through the predicate the monitor spec_ilv evaluates on the real node *)
+Theorem C04_race_outcome_ok : forall k x s sched,
+  idx_ok (s_tm s) -> live (kc k) s = true -> (forall p r, x = RmTerminate p r -> kc k <> p) ->
+  target_node (kt k) = me -> has k s = false ->
+  let r := remover_reason x in
+  let c := run sched (remover_cfg s k x) in
+  finished c = true ->
+  exists d, nn k r (c_st c) = (nn k r s + d)%nat /\
+            outcome_ok (l_result (c_link c)) (has k (c_st c)) d (exists_target (kt k) (c_st c)) = true.
+Proof. exact race_outcome_ok. Qed.
+Print Assumptions C04_race_outcome_ok.
+
+(* the programs of the explicit removers, in the order of the code *)
+Theorem C04_remover_programs : forall s n p a e q,
+  aget N.eq_dec n (s_names s) = Some q -> owned_by a p (s_aliases s) = true -> owned_by e p (s_events s) = true ->
+  remover_prog s (RmUnregName n) = [TDelName n q; TDrain (TName n me) r_unreg] /\
+  remover_prog s (RmDeleteAlias p a) = [TDelAlias a; TDrain (TAlias me a) r_unreg] /\
+  remover_prog s (RmUnregEvent p e) = [TDelEvent e; TDrain (TEvent e me) r_unreg] /\
+  remover_prog s (RmTerminate p r_kill) = term_prog s p r_kill.
+Proof.
+  intros s n p a e q A B C. unfold remover_prog. cbn [remover_prog_ord]. rewrite A, B, C. repeat split; reflexivity.
+Qed.
+Print Assumptions C04_remover_programs.
+
+(* The order matters.  With "drain, then delete" (RouteTerminateEvent before events.Delete, and the
+   same for names and aliases) the schedule [CleanupTarget | existence load, insert, re-check |
+   table delete] ends with the request returning nil, its relation standing on a target that no
+   longer exists and nothing delivered - for links and for monitors. *)
+Theorem C04_drain_before_delete_refuted : forall mon,
+  lost_run 7 mon lost_sched = true /\ lost_run 4 mon lost_sched = true /\ lost_run 6 mon lost_sched = true.
+Proof.
+  intros mon. split; [apply unregister_event_drain_first_refuted|split;
+    [apply unregister_name_drain_first_refuted | apply delete_alias_drain_first_refuted]].
+Qed.
+Print Assumptions C04_drain_before_delete_refuted.
 
 (* non-vacuity: a concrete history (observer 1002 links and monitors process 1001 and its name, 1001
    is killed) reaches a state where the hypotheses hold and notifications are due and delivered;
